@@ -97,8 +97,8 @@ theorem format_of_canonical (e : Expr) (hc : canon e = true) : fmtToks e = fmtTo
 /-! ## JSON -/
 
 /-- A lambda written to JSON and read back denotes the same expression: same shape, operators, function names
-and literal values (Parens flags, quote style, regex/duration spelling are not stored), provided every
-integer literal survives float64 (|v| < 2^53; see the finding json-int53) and no base is 0. -/
+and literal values (Parens flags, quote style, regex/duration spelling are not stored). The only hypothesis:
+no integer literal has base 0 (a NumberNode built without Base is rejected by the decoder). -/
 theorem json_roundtrip_tree (e : Expr) (h : jsonSafe e = true) :
     ∃ e', jsonRT e = .ok e' ∧ meaningOf e' = meaningOf e :=
   jsonRT_meaning e h
@@ -115,19 +115,11 @@ theorem format_after_json_preserves (e : Expr) (h : jsonSafe e = true) :
   refine ⟨j, canonize j, hj, by rw [h1]; exact parseLambda_fmt_canonical _ h2, ?_⟩
   rw [meaningOf_canonize, hm]
 
-/-- full statement without the integer hypothesis – FALSE of the code (finding json-int53), kept visible -/
-def json_roundtrip_tree_stmt : Prop :=
-  ∀ e : Expr, ∃ e', jsonRT e = .ok e' ∧ meaningOf e' = meaningOf e
+/-- BEFORE 1dcce27 integers went through float64: 2^53 + 1 came back as 2^53 … -/
+theorem old_json_int53_counterexample : jsonIntOld 9007199254740993 = 9007199254740992 := by decide
 
-/-- witness: 2^53 + 1 comes back as 2^53 -/
-theorem json_int53_counterexample :
-    (jsonRT (.lit (.num (.int 10 9007199254740993)))).isOkOf (.lit (.num (.int 10 9007199254740992))) = true := by
-  decide
-
-/-- witness: MaxInt64 comes back as MinInt64 -/
-theorem json_maxint_counterexample :
-    (jsonRT (.lit (.num (.int 10 9223372036854775807)))).isOkOf (.lit (.num (.int 10 (-9223372036854775808)))) = true := by
-  decide
+/-- … and MaxInt64 as MinInt64 -/
+theorem old_json_maxint_counterexample : jsonIntOld 9223372036854775807 = -9223372036854775808 := by decide
 
 /-! ## Literals -/
 
